@@ -23,6 +23,11 @@ def configs(tier):
     out = [{"part": "rule", "criterion": c, "evaluator": e} for (c, e) in
            (("relative", "metric"), ("absolute", "metric"), ("relative", "observable"), ("absolute", "observable"), ("variance", "observable"))]
     out.append({"part": "constructor"})
+    # the rule is proved against the evaluators' contract (records = completed evaluations, in order, one per scheduled
+    # epoch; accessors); that the real evaluators meet it is C17's obligation set, shared here because the statement
+    # depends on it
+    out += [{"part": "evaluator-contract", "cb": "MetricEvaluator"}, {"part": "evaluator-contract", "cb": "ObservableEvaluator"},
+            {"part": "evaluator-contract", "cb": "accessors"}]
     return out
 
 
@@ -31,6 +36,9 @@ def canaries(tier):
 
 
 def run_config(ctx, cfg):
+    if cfg["part"] == "evaluator-contract":
+        from lemmas import C17
+        return C17.run_config(ctx, {"cb": cfg["cb"]})
     if cfg["part"] == "rule":
         return _rule(ctx, cfg)
     return _constructor(ctx)
@@ -159,5 +167,8 @@ def _constructor(ctx):
 
 
 def replay(o):
+    if o["cfg"].get("part") == "evaluator-contract":
+        from drivers import C17 as D17
+        return D17.replay({"cb": o["cfg"]["cb"]})
     from drivers import C18 as D
     return D.replay(o["cfg"], (o.get("witness") or {}).get("model") or {}, o.get("short") or "")
